@@ -68,6 +68,14 @@ theorem refine_measure (d L : Nat) (c : Cell) (h : c.level + 1 ≤ L) :
     measure d L (children d c) = weight d L c :=
   measure_children d L c h
 
+/-- **`&` of two hierarchical topologies over the same base** (`HierarchicalTopology.__and__`, keeping on either
+side the elements that lie inside an element of the other side): if neither operand has overlapping elements,
+the result has none either — in particular no element is listed twice.  (That the result also covers the common
+domain is checked on the real code by exact recomputation, not proved.) -/
+theorem hand_partial (d : Nat) (A B : List Cell) (hA : A.Pairwise Apart) (hB : B.Pairwise Apart) :
+    (hand d A B).Pairwise Apart :=
+  hand_pairwise d A B hA hB
+
 -- the hypotheses are satisfiable / the statement is not vacuous: a 2x3 grid, two refined_by steps and a uniform one
 example : (run [2, 3] [.refinedBy [0, 4], .refinedBy [1, -7, 9], .refined]).toOption.map List.length = some 84 := by decide
 example : (run [2, 3] [.refinedBy [0, 4], .refinedBy [1, -7, 9], .refined]).toOption.map (fun cs => cs.all (·.level ≤ 3)) = some true := by decide
